@@ -15,7 +15,12 @@
     not `0o`; `%s` ignores precision; `%%` honours width; numbers are doubles and the integer
     conversions truncate them toward zero; parse errors are reported before any value is looked
     at; `%g` counts the significant digits of |v| < 1 from the units digit; widths/precisions above
-    65535 and float precisions above 308 are errors.
+    65535 and float precisions above 308 are errors; `-0.0` is printed without a sign.
+  * float conversions e E f F g G print the EXACT decimal expansion of the double, correctly
+    rounded (round half to even on the exact value) to the requested number of places; the
+    exponent of e/E/g/G is the one of the ROUNDED value (9.5 with precision 0 is 1e+01), and `%g`
+    chooses between the two forms by that exponent (C, Python).  Written here in exact integer
+    arithmetic on |v| · 2^1074 (`fixDigits`, `sciDigits`) — no floating point, no library call.
 
   Shares only the data types (`Code`, `Val`, `Err` …) with the model.
 -/
@@ -158,7 +163,7 @@ def expText (caps : Bool) (e : Int) : List Char :=
   let ds := (digits 10 e.natAbs).map (digitChar false)
   [if caps then 'E' else 'e'] ++ [if e < 0 then '-' else '+'] ++ zeros (2 - ds.length) ++ ds
 
-/-- float conversions, given the decimal digit data of the value (digit generation assumed) -/
+/-- sign, zero/space filling to `width` of a float text `body ++ suffix` -/
 def floatConv (fl : Flags) (width : Nat) (neg : Bool) (body suffix : List Char) : List Char :=
   let sgn := signText neg fl
   let len := sgn.length + body.length + suffix.length
@@ -166,17 +171,74 @@ def floatConv (fl : Flags) (width : Nat) (neg : Bool) (body suffix : List Char) 
   else if fl.zero then sgn ++ zeros (width - len) ++ body ++ suffix
   else spaces (width - len) ++ sgn ++ body ++ suffix
 
-/-- adopted limit: the decimal expansion of a double is generated to at most 308 places
-    (10^308 is the largest power of ten that is a finite double); a larger precision of an
-    e/E/f/F/g/G conversion is a "width or precision too large" error, whatever the value -/
+/-! ## exact decimal digits of a double (|v| = mag / 2^1074) -/
+
+/-- the fraction `n / d` (d > 0) rounded to the nearest integer, ties to the even one -/
+def roundHalfEven (n d : Nat) : Nat :=
+  let q := n / d
+  let r := n % d
+  if 2 * r < d then q else if 2 * r > d then q + 1 else if q % 2 = 0 then q else q + 1
+
+/-- |v| rounded to `p` decimal places, counted in units of 10^-p -/
+def fixedUnits (mag p : Nat) : Nat := roundHalfEven (mag * 10 ^ p) U
+
+/-- `%f`: integer part and `p`-digit fraction of |v| rounded to `p` places -/
+def fixDigits (mag p : Nat) : FDig :=
+  { whole := fixedUnits mag p / 10 ^ p, frac := fixedUnits mag p % 10 ^ p }
+
+/-- least `j ≥ start` with `mag · 10^j ≥ 2^1074` (`fuel` bounds the search; 10^324 > 2^1074) -/
+def lowExpF : Nat → Nat → Nat → Nat
+  | 0, j, _ => j
+  | fuel + 1, j, mag => if mag * 10 ^ j ≥ U then j else lowExpF fuel (j + 1) mag
+
+/-- floor(log10 |v|): the decimal exponent of the leading digit of |v| (0 for zero) -/
+def exp10 (mag : Nat) : Int :=
+  if mag = 0 then 0
+  else if mag ≥ U then (((digits 10 (mag / U)).length - 1 : Nat) : Int)
+  else -((lowExpF 400 1 mag : Nat) : Int)
+
+/-- |v| / 10^(x-p) rounded to an integer: |v| in units of the `p`-th place after the leading
+    digit when the leading digit has decimal exponent `x` -/
+def sciUnits (mag p : Nat) (x : Int) : Nat :=
+  if x ≤ (p : Int) then roundHalfEven (mag * 10 ^ ((p : Int) - x).toNat) U
+  else roundHalfEven mag (U * 10 ^ (x - (p : Int)).toNat)
+
+/-- `%e`: decimal exponent and mantissa digits (leading digit, `p`-digit fraction) of |v| rounded
+    to `p + 1` significant digits; when rounding carries into a new leading digit (9.99… → 10.0…)
+    the exponent is one larger and the mantissa is 1.00…0 -/
+def sciDigits (mag p : Nat) : Int × FDig :=
+  let x := exp10 mag
+  let u := sciUnits mag p x
+  if u ≥ 10 ^ (p + 1) then (x + 1, { whole := 1, frac := 0 })
+  else (x, { whole := u / 10 ^ p, frac := u % 10 ^ p })
+
+/-- decimal text of a natural number -/
+def decText (n : Nat) : List Char := (digits 10 n).map (digitChar false)
+
+/-- the `q`-digit fraction as text -/
+def fracText (q : Nat) (d : FDig) : List Char := zeros (q - (decText d.frac).length) ++ decText d.frac
+
+/-- `ddd.ddd` (`ddd` for q = 0): the plain decimal notation of digit data, which is what Rust's
+    `format!("{:.*}", q, x)` is assumed to return for the exact digit data of `x` -/
+def plainText (q : Nat) (d : FDig) : List Char :=
+  decText d.whole ++ (if q = 0 then [] else '.' :: fracText q d)
+
+/-- decimal text of an integer as Rust's `{:e}` writes the exponent: `-` or nothing, digits -/
+def intText (x : Int) : List Char := (if x < 0 then ['-'] else []) ++ decText x.natAbs
+
+/-- the exact, correctly rounded text that `format!("{:.*}", q, |v|)` is assumed to return -/
+def rustFixed (mag q : Nat) : List Char := plainText q (fixDigits mag q)
+
+/-- the exact, correctly rounded text that `format!("{:.*e}", q, |v|)` is assumed to return -/
+def rustSci (mag q : Nat) : List Char :=
+  plainText q (sciDigits mag q).2 ++ 'e' :: intText (sciDigits mag q).1
+
+/-- adopted limit: the decimal expansion of a double is generated to at most 308 places; a larger
+    precision of an e/E/f/F/g/G conversion is a "width or precision too large" error, whatever
+    the value -/
 def maxFloatPrec : Nat := 308
 
 def isScalar (n : Nat) : Bool := n < 0xD800 || (0xE000 ≤ n && n ≤ 0x10FFFF)
-
-def lookupDig (l : List (Nat × FDig)) (p : Nat) : R FDig :=
-  match l.lookup p with
-  | some d => .ok d
-  | none => .error .oracle
 
 def needNum : Val → R Num
   | .num n _ => .ok n
@@ -206,25 +268,24 @@ def conv (c : Code) (width : Nat) (prec : Option Nat) (v : Val) : R (List Char) 
     let p := prec.getD 6
     if p > maxFloatPrec then throw Err.tooLarge
     let n ← needNum v
-    let d ← lookupDig n.fix p
-    pure (floatConv fl width n.neg (fixedText d p fl.alt true) [])
+    pure (floatConv fl width n.neg (fixedText (fixDigits n.mag p) p fl.alt true) [])
   | .sci => do
     let p := prec.getD 6
     if p > maxFloatPrec then throw Err.tooLarge
     let n ← needNum v
-    let d ← lookupDig n.sci p
-    pure (floatConv fl width n.neg (fixedText d p fl.alt true) (expText c.caps n.exp))
+    let (x, d) := sciDigits n.mag p
+    pure (floatConv fl width n.neg (fixedText d p fl.alt true) (expText c.caps x))
   | .shorter => do
     if prec.getD 6 > maxFloatPrec then throw Err.tooLarge
     let n ← needNum v
     let p := max (prec.getD 6) 1
-    if n.exp < -4 || n.exp ≥ (p : Int) then do
-      let d ← lookupDig n.sci (p - 1)
-      pure (floatConv fl width n.neg (fixedText d (p - 1) fl.alt fl.alt) (expText c.caps n.exp))
-    else do
-      let q := p - max 1 (n.exp.toNat + 1)
-      let d ← lookupDig n.fix q
-      pure (floatConv fl width n.neg (fixedText d q fl.alt fl.alt) [])
+    -- the value rounded to `p` significant digits, and its decimal exponent
+    let (x, d) := sciDigits n.mag (p - 1)
+    if x < -4 || x ≥ (p : Int) then
+      pure (floatConv fl width n.neg (fixedText d (p - 1) fl.alt fl.alt) (expText c.caps x))
+    else
+      let q := p - max 1 (x.toNat + 1)
+      pure (floatConv fl width n.neg (fixedText (fixDigits n.mag q) q fl.alt fl.alt) [])
 
 /-! ## argument consumption -/
 
